@@ -459,9 +459,11 @@ fn run(args: &[String]) -> i32 {
     // inputs that need a non-default configuration
     for (src, cfg) in [(&b"rule r { strings: $a = /a{}b{}(/ condition: $a }"[..], 1u8), (b"rule r { strings: $a = /a{}b(/ condition: $a }", 1),
                        (b"rule r { strings: $a = /\\g{x}[z-a]/ condition: $a }", 1),
-                       // known findings (relaxed_re_syntax): slice in the middle of a multi-byte character; no `{` to escape
+                       // fixed by 776fc1b2 (relaxed_re_syntax): endless repair loop on an escaped `{` before a misplaced `+`
+                       (b"rule t { strings: $a = /\\{(+/ condition: $a }", 1), (b"rule t { strings: $a = /a\\{b{(*\\{/ condition: $a }", 1),
+                       // fixed by 776fc1b2 (relaxed_re_syntax): slice in the middle of a multi-byte character; no `{` to escape
                        ("rule r { strings: $a = /(y|z)a{\u{e9}\\d/s condition: $a }".as_bytes(), 1), (b"rule r { strings: $a = /+ \\x41/i condition: $a }", 1),
-                       // known finding (relaxed_re_syntax): the span compensation ignores WHERE the repairs were made
+                       // fixed by a11c27fd (relaxed_re_syntax): the span compensation ignored WHERE the repairs were made
                        ("rule r { strings: $a = /\\%\u{20ac}(a{}/ condition: $a }".as_bytes(), 1), (b"rule r { strings: $a = { 00 00 00 00 } condition: $a }", 2),
                        (b"rule Bad : t9 { condition: true }", 3), (b"import \"pe\" import \"math\" rule r { condition: pe.is_pe and math.abs(1) == 1 } rule q { condition: r }", 4),
                        (b"rule r { strings: $a = \"abc\" condition: $a and for all i in (0..filesize) : ( i > 0 ) }", 2)] {
